@@ -120,6 +120,39 @@ Theorem C05_label_head_partial : forall G purge lab H lr h h', ~ cyclic (all_dow
 Proof. exact label_head_holds. Qed.
 Print Assumptions C05_label_head_partial.
 
+(* ---------- partial ids as targets (resolution inside the model: resolve_partial) ---------- *)
+(* a partial id that resolves to the revision t is stamped exactly as the full id t (and the statement holds for it) *)
+Theorem C05_partial_single : forall G purge keys s t H, ~ cyclic (all_down G) -> ndeps_okb G = true ->
+  resolve_partial keys s = Ok t ->
+  Partial_holds (G, purge, keys, [s], H) (model_partial (G, purge, keys, [s], H)) /\
+  model_partial (G, purge, keys, [s], H) = model_e2e (G, purge, [[t]], Some [t], H).
+Proof. exact partial_single. Qed.
+Print Assumptions C05_partial_single.
+
+Theorem C05_resolve_partial_spec : forall keys s t, resolve_partial keys s = Ok t ->
+  exists k, In (k, t) keys /\ startswith k s = true.
+Proof. exact resolve_partial_spec. Qed.
+Print Assumptions C05_resolve_partial_spec.
+
+(* ---------- several databases in one run ---------- *)
+(* every database gets the same command with the same options, independently: the result on database k is the
+   single-database result for its own rows *)
+Theorem C05_multi_db_pointwise : forall G purge groups dests dbs rs, stamp_multi G purge groups dests dbs = Ok rs ->
+  length rs = length dbs /\
+  forall k H, nth_error dbs k = Some H -> exists r, nth_error rs k = Some r /\ stamp_cmd G purge groups dests H = Ok r.
+Proof. exact multi_is_pointwise. Qed.
+Print Assumptions C05_multi_db_pointwise.
+
+Theorem C05_multi_db_single : forall G purge t dbs, ~ cyclic (all_down G) -> ndeps_okb G = true ->
+  Multi_holds (G, purge, [[t]], Some [t], dbs) (model_multi (G, purge, [[t]], Some [t], dbs)).
+Proof. exact multi_holds_single. Qed.
+Print Assumptions C05_multi_db_single.
+
+Theorem C05_multi_db_base : forall G purge dbs, ~ cyclic (all_down G) -> ndeps_okb G = true ->
+  Multi_holds (G, purge, [[]], None, dbs) (model_multi (G, purge, [[]], None, dbs)).
+Proof. exact multi_holds_base. Qed.
+Print Assumptions C05_multi_db_base.
+
 (* ---------- non-vacuity ---------- *)
 (* the three kinds of single-target stamp on the witness history: move a branch up (a -> e), a new branch (b), down (e -> c) *)
 Example C05_single_nonvacuous :
@@ -185,3 +218,12 @@ Proof.
     assert (R3 : rel Ge [0;1]%N 3%N).
     { exists 1%N. split; [right; left; auto|]. left. apply (path_step _ 3%N 1%N 1%N); [vm_compute; auto|constructor]. }
     destruct (A 2%N 3%N) as [E|[[E|[E|[]]] _]]; try discriminate; cbn; auto. Qed.
+Definition keysw : list (str * N) := [([97;98;49;50;99], 0); ([97;98;49;50;101], 1); ([99;100;51;52], 3)]%N.   (* ab12c ab12e cd34 *)
+Example C05_partial_multi_nonvacuous :
+  resolve_partial keysw [99;100;51]%N = Ok 3%N /\ resolve_partial keysw [97;98;49;50]%N = Err ECommand /\
+  resolve_partial keysw [97;98;49;50;101]%N = Ok 1%N /\ resolve_partial keysw [122;122]%N = Err ECommand /\
+  model_partial (Gw, false, keysw, [[99;100;51]]%N, [2;4]%N) = Ok [3;4]%N /\
+  model_multi (Gw, true, [[3]]%N, Some [3]%N, [[2;4]; [99]; []]%N) = Ok [[3]; [3]; [3]]%N /\
+  all_in_domain Gw true (Some [3]%N) [[2;4]; [99]; []]%N = true /\
+  model_multi (Gw, false, [[3]]%N, Some [3]%N, [[2;4]; [1]]%N) = Ok [[3;4]; [1;3]]%N.
+Proof. repeat split; vm_compute; reflexivity. Qed.
